@@ -196,6 +196,10 @@ def coverage(a, tags, func):
             inn = T.node(init)
             ini = 'int:%d' % inn[1] if inn[0] == 'int' else ('iv+1' if inn[0] == 'op' and inn[1] == '+' else 'expr')
         out.append((op, ini, bd, step))
+    # triangular pair enumeration: with the inner loop running j in [0, i) the outer loop may start at
+    # 0 or at 1 (index 0 has no partner below it) -- the same set of unordered pairs
+    if any(len(x) == 4 and x[2] == 'iv' and x[1] == 'int:0' and x[0] == '<' for x in out):
+        out = [(x[0], 'int:0', x[2], x[3]) if len(x) == 4 and x[1] == 'int:1' and x[2] != 'iv' and x[0] == '<' else x for x in out]
     return tuple(out)
 
 
